@@ -26,7 +26,10 @@ EXPLANATION = (
     "Petri net is built with an explicit symbolic context, that context is derived from the same network object whose "
     "variables and update functions are read, or from a network obtained from it by order-preserving steps only "
     "(infer_valid_graph, copy; helper functions are summarised) -- AEON resolves variables by index, so mixing two "
-    "orderings of the same network silently permutes the update functions. NOT decided and not claimed: isomorphism of the diagrams of "
+    "orderings of the same network silently permutes the update functions. (S) decisions are taken on BDDs, not on the "
+    "way a formula is written: nowhere in the package is the syntax tree of an update function or expression inspected "
+    "(as_var / is_not / as_binary / support_variables ...); every function that reads an update function hands it to the "
+    "symbolic context or to the BDD-based restriction. NOT decided and not claimed: isomorphism of the diagrams of "
     "renamed / reordered / re-encoded / re-formatted networks (these compare run-time results of transformed inputs)."
 )
 ASSUMPTIONS = [
@@ -40,6 +43,8 @@ def run(ck: Check) -> None:
     u(ck)
     p(ck)
     o(ck)
+    s_(ck)
+    ck.floor("S", 3)
     ck.floor("R", 1)
     ck.floor("U", 1)
     ck.floor("P", 2)
@@ -265,6 +270,34 @@ def p(ck: Check) -> None:
     if not t or not isinstance(t[0].args[0], ast.Constant) or t[0].args[0].value not in ("b0_", "b1_"):
         probs.append("variables are not recovered from the places of one polarity")
     ck.ob("P", fm, fm.f.node, not probs, "; ".join(probs) if probs else "variables recovered from one place per variable", key="extract names")
+
+
+SYNTAX_METHODS = {
+    "as_and", "as_binary", "as_cond", "as_const", "as_iff", "as_imp", "as_literal", "as_not", "as_or", "as_param", "as_var", "as_xor",
+    "is_and", "is_binary", "is_cond", "is_const", "is_iff", "is_imp", "is_literal", "is_not", "is_or", "is_param", "is_var", "is_xor",
+    "support_variables", "support_parameters", "distribute_negation", "to_and_or_normal_form", "simplify_constants",
+}
+
+
+def s_(ck: Check) -> None:
+    prog = ck.prog
+    sites = 0
+    for fm in prog.models():
+        reads = [c for c in own_walk(fm.f.node) if isinstance(c, ast.Call) and callee_name(c) == "get_update_function"]
+        syn = [c for c in own_walk(fm.f.node) if isinstance(c, ast.Call) and isinstance(c.func, ast.Attribute)
+               and c.func.attr in SYNTAX_METHODS]
+        for c in syn:
+            ck.ob("S", fm, fm.f.stmt_of(c), False,
+                  f"`{text(c)[:60]}` inspects how a formula is written: two logically equivalent update functions (`x` and "
+                  f"`x | x`) are then treated differently, so the result depends on the presentation of the network",
+                  key=f"syntax inspection {c.func.attr} in {fm.f.name}")
+        for c in reads:
+            sites += 1
+            if not syn:
+                ck.ob("S", fm, fm.f.stmt_of(c), True, "update function read and handed on without looking at its syntax",
+                      key=f"update function read in {fm.f.name}")
+    if sites == 0:
+        raise AnalysisError("anchor vanished: no function reads update functions")
 
 
 def o(ck: Check) -> None:
